@@ -131,6 +131,8 @@ def run(ctx):
         problems.append(("c01-grammar:%d" % i, ["generated", "c01-grammar"], c10_gen.gen_classical(rng, i)))
     for i in range(n_temporal):
         problems.append(("temporal-grammar:%d" % i, ["generated", "temporal-grammar"], c10_gen.gen_temporal(rng, i)))
+    for label, tags, pb in c10_gen.other_classes_corpus():
+        problems.append((label, ["targeted"] + tags, pb))
     for label, pb in load_examples():
         problems.append((label, ["corpus", "examples"], pb))
     pkgs = ["builtin"] if ctx.quick else ["builtin", "performance"]
@@ -190,7 +192,7 @@ def run(ctx):
     feature_hits = {}
     for info in infos:
         by_class[info["class"]] = by_class.get(info["class"], 0) + 1
-        src = info["tags"][1] if len(info["tags"]) > 1 else info["tags"][0]
+        src = "targeted" if info["tags"][0] == "targeted" else info["tags"][1]
         by_src[src] = by_src.get(src, 0) + 1
         k = tuple(info["kind"])
         for f in k:
